@@ -851,3 +851,247 @@ End Store.
 
 Example bs_zero_selects_nothing : forall w st, find_unique 0 w st = [].
 Proof. reflexivity. Qed.
+
+(** * Target 6: the main theorem *)
+
+Local Notation rows_of traces := (map (row_of ctree canon) traces).
+
+Lemma find_unique_store traces bs w :
+  NoDup (all_ids traces) -> (0 < bs)%nat ->
+  find_unique bs w (store_of traces) =
+  if win0 w then map rproj (select_rows [] (rows_of traces)) else [].
+Proof.
+  intros Hnd Hbs. unfold find_unique, hashes_ct. rewrite all_hashes_store by assumption.
+  destruct (win0 w); [apply select_first_rows | reflexivity].
+Qed.
+
+Lemma rows_all_some traces : all_some (rows_of traces).
+Proof.
+  intros r Hr. apply in_map_iff in Hr. destruct Hr as [tr [<- _]]. discriminate.
+Qed.
+
+Lemma in_rows_of traces j nm d :
+  In (j, nm, d) (rows_of traces) <-> exists t, In (j, nm, t) traces /\ d = Some (canon t).
+Proof.
+  rewrite in_map_iff. split.
+  - intros [[[j' nm'] t] [E Hin]]. unfold row_of in E; simpl in E. inversion E; subst.
+    exists t. auto.
+  - intros [t [Hin ->]]. exists (j, nm, t). auto.
+Qed.
+
+Lemma job_functional traces j n1 t1 n2 t2 :
+  NoDup (map tjob traces) -> In (j, n1, t1) traces -> In (j, n2, t2) traces -> n1 = n2 /\ t1 = t2.
+Proof.
+  induction traces as [|tr l IH]; intros Hnd H1 H2; [destruct H1|].
+  simpl in Hnd. inversion Hnd as [|x l' Hx Hr]; subst.
+  destruct H1 as [E1|H1], H2 as [E2|H2].
+  - rewrite E1 in E2. inversion E2. auto.
+  - exfalso. apply Hx. subst tr. apply (in_map tjob) in H2. exact H2.
+  - exfalso. apply Hx. subst tr. apply (in_map tjob) in H1. exact H1.
+  - apply IH; assumption.
+Qed.
+
+Lemma select_rows_nodup_map {B} (g : row -> B) : forall l seen,
+  NoDup (map g l) -> NoDup (map g (select_rows seen l)).
+Proof.
+  induction l as [|r rest IH]; intros seen Hnd; simpl; [constructor|].
+  simpl in Hnd. inversion Hnd as [|x l' Hx Hr]; subst.
+  destruct (existsb (same_group r) seen); [apply IH, Hr|].
+  simpl. constructor; [|apply IH, Hr].
+  intros Hin. apply Hx. apply in_map_iff in Hin. destruct Hin as [r' [E Hr']].
+  apply in_map_iff. exists r'. split; [exact E | eapply select_rows_incl, Hr'].
+Qed.
+
+Lemma NoDup_map_inj_in {A B} (f : A -> B) l :
+  NoDup l -> (forall a b, In a l -> In b l -> f a = f b -> a = b) -> NoDup (map f l).
+Proof.
+  induction l as [|x l IH]; intros Hnd Hinj; simpl; [constructor|].
+  inversion Hnd as [|x' l' Hx Hr]; subst. constructor.
+  - intros Hin. apply in_map_iff in Hin. destruct Hin as [y [E Hy]].
+    assert (y = x) by (apply Hinj; [right; exact Hy | left; reflexivity | exact E]). subst y. contradiction.
+  - apply IH; [exact Hr|]. intros a b Ha Hb. apply Hinj; right; assumption.
+Qed.
+
+(** the statement for ANY outcome of the GROUP BY (an arbitrary row per (name, digest) group) *)
+Theorem c09_main_any traces selrows :
+  NoDup (map tjob traces) -> valid_selection (rows_of traces) selrows ->
+  let sel := map rproj selrows in
+  (* selected entries are stored traces, each listed once *)
+  (forall nm j, In (nm, j) sel -> exists t, In (j, nm, t) traces) /\
+  NoDup sel /\
+  (* every stored trace has exactly one selected representative of its shape under its name *)
+  (forall j nm t, In (j, nm, t) traces ->
+     exists j', (In (nm, j') sel /\ exists t', In (j', nm, t') traces /\ TreeIso t t') /\
+       forall j'', In (nm, j'') sel ->
+                   (exists t'', In (j'', nm, t'') traces /\ TreeIso t t'') -> j'' = j') /\
+  (* two selected traces of one name never have the same shape *)
+  (forall nm j1 j2 t1 t2, In (nm, j1) sel -> In (nm, j2) sel ->
+     In (j1, nm, t1) traces -> In (j2, nm, t2) traces -> TreeIso t1 t2 -> j1 = j2).
+Proof.
+  intros Hjobs Hv sel.
+  assert (Hs := rows_all_some traces).
+  destruct (valid_selection_spec _ _ Hs Hv) as [Ha [Hb Hc]].
+  assert (Hsel : forall nm j, In (nm, j) sel <-> exists d, In (j, nm, d) selrows).
+  { intros nm j. unfold sel. rewrite in_map_iff. split.
+    - intros [[[j' nm'] d] [E Hr]]. unfold rproj in E; simpl in E. inversion E; subst. exists d. exact Hr.
+    - intros [d Hr]. exists (j, nm, d). auto. }
+  assert (H3 : forall j nm t, In (j, nm, t) traces ->
+     exists j', (In (nm, j') sel /\ exists t', In (j', nm, t') traces /\ TreeIso t t') /\
+       forall j'', In (nm, j'') sel ->
+                   (exists t'', In (j'', nm, t'') traces /\ TreeIso t t'') -> j'' = j').
+  { intros j nm t Hin.
+    assert (Hr : In (j, nm, Some (canon t)) (rows_of traces)) by (apply in_rows_of; eauto).
+    destruct (Hb _ Hr) as [[[j' nm'] d'] [Hr' [Ek Huniq]]].
+    unfold rkey in Ek; simpl in Ek. inversion Ek; subst nm' d'. clear Ek.
+    exists j'. split.
+    - split; [apply Hsel; eauto|]. apply Ha, in_rows_of in Hr'. destruct Hr' as [t' [Hin' Ec]].
+      exists t'. split; [exact Hin'|]. apply canon_iso. congruence.
+    - intros j'' Hj'' [t'' [Hin'' Hiso]]. apply Hsel in Hj''. destruct Hj'' as [d Hr''].
+      assert (Hd : d = Some (canon t'')).
+      { apply Ha, in_rows_of in Hr''. destruct Hr'' as [t3 [Hin3 ->]].
+        destruct (job_functional _ _ _ _ _ _ Hjobs Hin3 Hin'') as [_ ->]. reflexivity. }
+      subst d. apply canon_iso in Hiso.
+      assert (E : (j'', nm, Some (canon t'')) = (j', nm, Some (canon t))).
+      { apply Huniq; [exact Hr''|]. unfold rkey; simpl. rewrite Hiso. reflexivity. }
+      inversion E. reflexivity. }
+  split; [|split; [|split]].
+  - intros nm j Hin. apply Hsel in Hin. destruct Hin as [d Hr]. apply Ha, in_rows_of in Hr.
+    destruct Hr as [t [Hin _]]. eauto.
+  - unfold sel. apply NoDup_map_inj_in; [eapply NoDup_map_inv, Hc|].
+    intros [[ja na] da] [[jb nb] db] Hina Hinb E. unfold rproj in E; simpl in E. inversion E; subst.
+    apply Ha, in_rows_of in Hina. apply Ha, in_rows_of in Hinb.
+    destruct Hina as [ta [Hta ->]], Hinb as [tb [Htb ->]].
+    destruct (job_functional _ _ _ _ _ _ Hjobs Hta Htb) as [_ ->]. reflexivity.
+  - exact H3.
+  - intros nm j1 j2 t1 t2 Hs1 Hs2 Hi1 Hi2 Hiso.
+    destruct (H3 j1 nm t1 Hi1) as [j' [_ Hu]].
+    rewrite (Hu j1 Hs1), (Hu j2 Hs2); eauto using TreeIso_refl.
+Qed.
+
+Theorem c09_main_thm traces bs w :
+  NoDup (all_ids traces) -> NoDup (map tjob traces) -> (0 < bs)%nat -> win0 w = true ->
+  let sel := find_unique bs w (store_of traces) in
+  (forall nm j, In (nm, j) sel -> exists t, In (j, nm, t) traces) /\
+  NoDup sel /\
+  (forall j nm t, In (j, nm, t) traces ->
+     exists j', (In (nm, j') sel /\ exists t', In (j', nm, t') traces /\ TreeIso t t') /\
+       forall j'', In (nm, j'') sel ->
+                   (exists t'', In (j'', nm, t'') traces /\ TreeIso t t'') -> j'' = j') /\
+  (forall nm j1 j2 t1 t2, In (nm, j1) sel -> In (nm, j2) sel ->
+     In (j1, nm, t1) traces -> In (j2, nm, t2) traces -> TreeIso t1 t2 -> j1 = j2).
+Proof.
+  intros Hids Hjobs Hbs Hw sel.
+  assert (Esel : sel = map rproj (select_rows [] (rows_of traces))).
+  { unfold sel. rewrite find_unique_store by assumption. rewrite Hw. reflexivity. }
+  rewrite Esel. apply c09_main_any; [exact Hjobs|]. apply select_rows_valid, rows_all_some.
+Qed.
+
+(** * Target 7: independence of ingestion order (and of batch size) *)
+
+Lemma shapes_hit_iff traces bs w nm c :
+  NoDup (all_ids traces) -> NoDup (map tjob traces) -> (0 < bs)%nat ->
+  shapes_hit bs w traces nm c <->
+  win0 w = true /\ exists j t, In (j, nm, t) traces /\ canon t = c.
+Proof.
+  intros Hids Hjobs Hbs. unfold shapes_hit. split.
+  - intros [j [t [Hsel [Hin Ec]]]]. split; [|eauto].
+    rewrite find_unique_store in Hsel by assumption. destruct (win0 w); [reflexivity | destruct Hsel].
+  - intros [Hw [j [t [Hin Ec]]]].
+    destruct (c09_main_thm traces bs w Hids Hjobs Hbs Hw) as [_ [_ [H3 _]]].
+    destruct (H3 j nm t Hin) as [j' [[Hsel [t' [Hin' Hiso]]] _]].
+    exists j', t'. split; [exact Hsel|]. split; [exact Hin'|]. apply canon_iso in Hiso. congruence.
+Qed.
+
+Theorem order_indep traces traces' bs bs' w :
+  NoDup (all_ids traces) -> NoDup (map tjob traces) -> Permutation traces traces' ->
+  (0 < bs)%nat -> (0 < bs')%nat ->
+  forall nm c, shapes_hit bs w traces nm c <-> shapes_hit bs' w traces' nm c.
+Proof.
+  intros Hids Hjobs Hp Hbs Hbs' nm c.
+  assert (Hids' : NoDup (all_ids traces')).
+  { eapply Permutation_NoDup; [|exact Hids]. unfold all_ids. apply Permutation_flat_map, Hp. }
+  assert (Hjobs' : NoDup (map tjob traces')).
+  { eapply Permutation_NoDup; [|exact Hjobs]. apply Permutation_map, Hp. }
+  rewrite (shapes_hit_iff traces bs w nm c Hids Hjobs Hbs).
+  rewrite (shapes_hit_iff traces' bs' w nm c Hids' Hjobs' Hbs').
+  split; intros [Hw [j [t [Hin Ec]]]]; (split; [exact Hw|]); exists j, t; (split; [|exact Ec]).
+  - eapply Permutation_in; [exact Hp | exact Hin].
+  - eapply Permutation_in; [apply Permutation_sym, Hp | exact Hin].
+Qed.
+
+(** * Target 8: examples (also the non-vacuity witnesses) *)
+
+Local Open Scope positive_scope.
+
+(** types: A = 1, B = 2, C = 3; workflow names 10, 11; job ids 101.. *)
+Definition ex_t1 : ltree := LT 1 1 [LT 2 2 []; LT 3 3 [LT 4 2 []]].          (* A(B, C(B)) *)
+Definition ex_t2 : ltree := LT 5 1 [LT 6 3 [LT 7 2 []]; LT 8 2 []].          (* A(C(B), B) *)
+Definition ex_t3 : ltree := LT 9 1 [LT 10 2 []; LT 11 3 [LT 12 2 []]].       (* A(B, C(B)) *)
+Definition ex_t4 : ltree := LT 13 1 [LT 14 2 []; LT 15 2 []].                (* A(B, B) *)
+Definition ex_t5 : ltree := LT 16 1 [LT 17 2 []].                            (* A(B) *)
+Definition ex_traces : list trace :=
+  [(101, 10, ex_t1); (102, 10, ex_t2); (103, 11, ex_t3); (104, 10, ex_t4); (105, 10, ex_t5)].
+
+Example ex_hyps : NoDup (all_ids ex_traces) /\ NoDup (map tjob ex_traces) /\ win0 (-5, 5)%Z = true.
+Proof.
+  split; [|split]; [| |reflexivity]; vm_compute;
+    repeat (constructor; [simpl; intros H; repeat (destruct H as [H|H]; [discriminate H|]); exact H|]);
+    constructor.
+Qed.
+
+(** 101 and 102 have the same shape up to sibling order and the same name: one of them is kept;
+    103 has that shape under another name: kept; A(B,B) and A(B) are different shapes: both kept.
+    The result is the same for every batch size 1..6. *)
+Example ex_find_unique :
+  forallb (fun bs => list_eqb pair_eqb (find_unique bs (-5, 5)%Z (store_of ex_traces))
+                       [(10, 101); (11, 103); (10, 104); (10, 105)])
+          [1; 2; 3; 4; 5; 6]%nat = true.
+Proof. vm_compute. reflexivity. Qed.
+
+Example ex_find_unique_1 :
+  find_unique 2 (-5, 5)%Z (store_of ex_traces) = [(10, 101); (11, 103); (10, 104); (10, 105)].
+Proof. vm_compute. reflexivity. Qed.
+
+(** ingestion in the reverse order keeps 102 instead of 101: another representative, same shapes *)
+Example ex_find_unique_rev :
+  find_unique 2 (-5, 5)%Z (store_of (rev ex_traces)) = [(10, 105); (10, 104); (11, 103); (10, 102)].
+Proof. vm_compute. reflexivity. Qed.
+
+(** sibling order does not matter, multiplicity does *)
+Example ex_sibling_order : canon ex_t1 = canon ex_t2 /\ TreeIso ex_t1 ex_t2.
+Proof. split; [vm_compute; reflexivity | apply canon_iso; vm_compute; reflexivity]. Qed.
+
+Example ex_multiplicity : canon ex_t4 <> canon ex_t5 /\ ~ TreeIso ex_t4 ex_t5.
+Proof.
+  assert (H : canon ex_t4 <> canon ex_t5) by (vm_compute; discriminate).
+  split; [exact H | intros Hiso; apply H, canon_iso, Hiso].
+Qed.
+
+(** a window that does not contain the (zero) timestamps selects nothing *)
+Example ex_window_out : find_unique 2 (1, 5)%Z (store_of ex_traces) = [].
+Proof. vm_compute. reflexivity. Qed.
+
+(** a GROUP BY outcome that differs from the model's first-row choice (102 represents the group
+    of 101/102) is also a valid selection: [c09_main_any] applies to it *)
+Example ex_other_representative :
+  valid_selection (map (row_of ctree canon) ex_traces)
+    (map (row_of ctree canon) [(102, 10, ex_t2); (103, 11, ex_t3); (104, 10, ex_t4); (105, 10, ex_t5)]).
+Proof.
+  split.
+  - intros r Hr. simpl in Hr. simpl. tauto.
+  - intros r Hr. simpl in Hr.
+    repeat (destruct Hr as [<-|Hr]; [vm_compute; reflexivity|]). destruct Hr.
+Qed.
+
+(** The injectivity hypothesis on [X] is necessary: an encoding collision between a leaf type and
+    "type ++ child digest" (possible in the code, where the digest input is the plain string
+    concatenation event_type ++ hexdigests) yields two different shapes with one digest. *)
+Lemma encoding_collision_breaks (D : Type) (dleb : D -> D -> bool) (X : positive -> list D -> D)
+      (ty1 ty2 tyb : positive) :
+  X ty1 [] = X ty2 [X tyb []] ->
+  exists a b, thash D dleb X a = thash D dleb X b /\ ~ TreeIso a b.
+Proof.
+  intros E. exists (LT 1 ty1 []), (LT 1 ty2 [LT 2 tyb []]). split; [simpl; exact E|].
+  intros Hiso. inversion Hiso as [i i' ty ks ks' ks'' Hp Hf]; subst.
+  inversion Hf; subst. apply Permutation_sym, Permutation_nil in Hp. discriminate.
+Qed.
